@@ -17,7 +17,10 @@ fn daemon_fold(
     for c in changes {
         apply_snapshot(&mut snapshot, c);
     }
-    snapshot.into_values().flat_map(|m| m.into_values()).collect()
+    snapshot
+        .into_values()
+        .flat_map(|m| m.into_values())
+        .collect()
 }
 
 #[test]
